@@ -287,9 +287,17 @@ def run_sequence(ctx, seq, cfg, hook):
                 model.close()
                 if op == 'close':
                     port.close()
-                elif op == 'with':
+                elif op == 'with' and (oi + len(seq) + len(cfg[0])) % 2:
                     with port as p:
                         ctx.check('results == lifecycle model', p is port, f'{key0}:with-as', case, None)
+                elif op == 'with':
+                    # the block is left by an exception that has nothing to do with this port
+                    exc_cls = (OSError, ValueError, KeyError, EOFError)[(oi + len(seq)) % 4]
+                    try:
+                        with port:
+                            raise exc_cls('something else failed inside the with block')
+                    except exc_cls:
+                        pass
                 else:
                     port.__del__()
                 want = got = None
@@ -839,6 +847,92 @@ def portserver_close_cases(ctx, hook):
     return n
 
 
+def socket_two_thread_cases(ctx, real_sleep):
+    """One thread waits in a blocking receive() / iteration on an idle SocketPort; meanwhile another thread's
+    poll() returns None at once, its send() goes out, and its close() ends the first thread's wait.
+    (Real threads and the library's real sleep(); every wait here has a generous bound and a control
+    thread tells a blocked library from a starved machine.)"""
+    import threading
+    import time
+    from mido.sockets import PortServer, connect
+    n = 0
+    saved = mido.ports.sleep
+    mido.ports.sleep = real_sleep
+    try:
+        for waiter in ('receive', 'iterate'):
+            for second in ('poll', 'send', 'close'):
+                case = {'kind': 'socket-two-threads', 'waiting_call': waiter, 'second_thread': second}
+                server = client = port = None
+                try:
+                    server = PortServer('127.0.0.1', 0)
+                    client = connect('127.0.0.1', server._socket.getsockname()[1])
+                    port = server.accept()
+                    box = []
+
+                    def wait_in_receive():
+                        try:
+                            if waiter == 'receive':
+                                box.append(('got', port.receive()))
+                            else:
+                                box.append(('iterated', [m for m in port]))
+                        except Exception as exc:
+                            box.append(('raised', f'{type(exc).__name__}: {exc}'))
+                    t1 = threading.Thread(target=wait_in_receive, daemon=True)
+                    t1.start()
+                    time.sleep(0.05)                       # let it get into its wait
+                    done = []
+
+                    def second_call():
+                        try:
+                            if second == 'poll':
+                                done.append(('poll', port.poll()))
+                            elif second == 'send':
+                                port.send(out_msg(1))
+                                done.append(('sent', None))
+                            else:
+                                port.close()
+                                done.append(('closed', port.closed))
+                        except Exception as exc:
+                            done.append(('raised', f'{type(exc).__name__}: {exc}'))
+                    t2 = threading.Thread(target=second_call, daemon=True)
+                    t2.start()
+                    t2.join(10.0)
+                    if t2.is_alive():
+                        ctl = threading.Thread(target=lambda: done.append('control'), daemon=True)
+                        ctl.start()
+                        ctl.join(10.0)
+                        if ctl.is_alive():
+                            raise HarnessAbort('threads do not get to run on this machine')
+                        t2.join(10.0)
+                    ctx.check('non-blocking call never waits', not t2.is_alive() and done and done[0][0] != 'raised',
+                              f'socket:{second}-stalls-behind-a-blocking-receive', case,
+                              {'second_call_finished': not t2.is_alive(), 'result': [str(d) for d in done][:2]})
+                    # let the waiter go: a message for receive(), a disconnect for the iteration
+                    if second != 'close':
+                        if waiter == 'receive':
+                            client.send(dev_msg(1))
+                        else:
+                            client.close()
+                    t1.join(10.0)
+                    ctx.check('blocking call bounded sleeps', not t1.is_alive(), f'socket:{waiter}-never-returns-after-{second}', case,
+                              [str(b) for b in box][:1])
+                except HarnessAbort:
+                    raise
+                except Exception as exc:
+                    ctx.fail('results == lifecycle model', f'socket-two-threads:{type(exc).__name__}', case, repr(exc))
+                finally:
+                    for p in (client, port, server):
+                        try:
+                            if p is not None:
+                                p.close()
+                        except Exception:
+                            pass
+                n += 1
+    finally:
+        mido.ports.sleep = saved
+    return n
+
+
 def multiport_selfclosing_member(ctx, hook):
     """A member device delivers N messages and hangs up inside the same _receive() call: the
     MultiPort (and multi_receive) must still hand out every one of them."""
@@ -1271,6 +1365,11 @@ def run(ctx):
             k = long_idle_cases(ctx, hook)
             ctx.nontrivial(None, k)
             n += k
+        if ctx.shard == 5 % ctx.nshards:
+            k = socket_two_thread_cases(ctx, orig)
+            ctx.nontrivial(None, k)
+            ctx.extra('socket_two_thread_cases', k)
+            n += k
         if ctx.shard == 4 % ctx.nshards:
             k = wild_clock_cases(ctx, orig)
             ctx.nontrivial(None, k)
@@ -1326,6 +1425,8 @@ def replay(ctx, case):
             portserver_close_cases(ctx, hook)
         elif k == 'wild-clock':
             wild_clock_cases(ctx, orig)
+        elif k == 'socket-two-threads':
+            socket_two_thread_cases(ctx, orig)
         elif k == 'multi-failing-member':
             multiport_failing_member(ctx, hook)
     finally:
